@@ -41,6 +41,11 @@ def ref? (s : String) : Option Ref :=
   | 'A', [j, n] => match j.toNat?, unhex n with
     | some j, some n => some (.jobAttr j n)
     | _, _ => none
+  | 'X', [j, k, c] =>
+    let conv : Option Conv := if c == "j" then some .json else if c == "s" then some .str else if c == "r" then some .repr else none
+    match j.toNat?, k.toNat?, conv with
+    | some j, some k, some c => some (.conv j k c)
+    | _, _, _ => none
   | 'B', [j, n, i] => match j.toNat?, unhex n, unhex i with
     | some j, some n, some i => some (.jobMember j n i)
     | _, _, _ => none
